@@ -428,6 +428,51 @@ fn constants_and_conversions(e: &mut Eng) {
     e.sample(|| "MILLIMETER_SQUARED_PER_SECOND_CUBED: name states (2,-3)".to_string());
 }
 
+/// structured f32 alphabet: every exponent x a few mantissa patterns x both signs (incl. subnormals)
+fn value_grid(per_exp: &[u32]) -> Vec<f32> {
+    let mut v = Vec::new();
+    for ex in 0u32..=254 {
+        for &m in per_exp {
+            for sign in [0u32, 1] {
+                v.push(f32::from_bits((sign << 31) | (ex << 23) | (m & 0x7f_ffff)));
+            }
+        }
+    }
+    v
+}
+fn value_sweep(e: &mut Eng, thorough: bool, budget: Budget) {
+    let mants: Vec<u32> = if thorough { vec![0, 1, 0x7f_ffff, 0x40_0000, 0x2a_aaaa, 0x55_5555, 0x00_0100, 0x7f_ff00] } else { vec![0, 1, 0x7f_ffff, 0x2a_aaaa] };
+    let vals = value_grid(&mants);
+    let n = vals.len() as u64;
+    let u = MILLIMETER_PER_SECOND;
+    let w = INVERSE_SECOND_SQUARED;
+    par(e, n * n, 1 << 14, budget, |idx, e| {
+        let (x, y) = (vals[(idx / n) as usize], vals[(idx % n) as usize]);
+        e.executions += 1;
+        e.transitions += 8;
+        e.checks += 1;
+        if idx % n == 0 {
+            e.states += n;
+        }
+        let (a, b, c) = (Quantity::new(x, u), Quantity::new(y, u), Quantity::new(y, w));
+        let mut p = a;
+        p += b;
+        let mut q = a;
+        q *= c;
+        let ok = feq((a + b).value, x + y) && feq((a - b).value, x - y) && feq((a * c).value, x * y) && feq((a / c).value, x / y) && feq(p.value, x + y) && feq(q.value, x * y) && feq((-a).value, -x) && a.abs().value == x.abs() && a.partial_cmp(&b) == x.partial_cmp(&y);
+        if !ok {
+            e.violation("units:value-sweep", 1, || format!("values {:?} and {:?}: a Quantity operator does not give the raw f32 result", x, y));
+        }
+        if x.is_finite() && y.is_finite() && (x + y).is_finite() {
+            e.nontrivial += 1;
+        }
+        if idx % 1_000_003 == 0 {
+            e.outcome(h64(&(x.to_bits(), y.to_bits())));
+            e.sample(|| format!("{:?} (+,-,*,/,+=,*=,neg,abs,cmp) {:?}", x, y));
+        }
+    });
+}
+
 pub fn axis(extended: bool) -> Vec<i32> {
     if extended {
         vec![-60, -31, -4, -3, -2, -1, 0, 1, 2, 3, 4, 31, 60]
@@ -506,5 +551,11 @@ pub fn run(ctx: &Ctx) -> Vec<Eng> {
     }
     time_int_products(&mut e3);
     constants_and_conversions(&mut e3);
-    vec![e1, e2, e3]
+    let mut e4 = Eng::new(
+        "c01-value-sweep",
+        "numeric part over a structured sweep of the f32 domain: every exponent (incl. subnormals) x 4 (thorough 8) mantissa patterns x both signs, all ordered pairs, through + - * / += *= neg abs partial_cmp on correctly dimensioned quantities: bit-equal to the raw f32 operators; non-trivial = both operands and their sum finite",
+        if ctx.thorough { "4080 x 4080 value pairs" } else { "2040 x 2040 value pairs" },
+    );
+    value_sweep(&mut e4, ctx.thorough, budget);
+    vec![e1, e2, e3, e4]
 }
